@@ -93,6 +93,21 @@ CLAIMED["C17"] = dict(engine="yast",
          "the two concrete_* counters carry the same guard (concreteness of the outer dimensions and of the current group), accumulate adds each "
          "per-method counter to the field of the same name. Does not decide that the cells enumerate real class tuples (run-time grouping).",
     design_ref="DESIGN.md section 4, C17")
+CLAIMED["C05"] = dict(engine="yast",
+    technique="AST path enumeration of the hash-search scan body; expression equality of probe and look-up; CFG control dependence of the publishing calls",
+    text="Decides necessary structure: hash parameters are installed only from the single `if (found)` exit after a complete scan in which an occupied "
+         "bucket clears the flag and is never overwritten; the empty-bucket marker is invalid_type in both fill and test (any other value is a legal "
+         "id); the search probes with exactly the expression hash_type_id computes, hash_shift = 64 - M with 1 << M buckets; publish_vptrs runs "
+         "search -> resize(hash_length) -> stores unconditionally on every update over every id of every class; the checked hash returns an index only "
+         "when it is in range and control[index] is the id. Does not decide that the random search succeeds or terminates, nor table contents.",
+    design_ref="DESIGN.md section 4, C05")
+CLAIMED["C10"] = dict(engine="yast",
+    technique="AST who-must-wrap rule, CFG control-dependence whitelists, loop-nest rule, typestate rule on deferred-id flags",
+    text="Decides the places where an RTTI flavour could lose an id: class_map is always keyed through Policy::type_index; every new id of a class is "
+         "appended to its id list; the three publishers and the hash search iterate every id of every class; the hash treats every value except "
+         "invalid_type as a legal id; deferred ids are resolved once per list, the flag being set after all cells and read only for non-empty lists. "
+         "Equality of dispatch results across flavours is not decided.",
+    design_ref="DESIGN.md section 4, C10")
 NA = {
 }
 DEFAULT_NA = "check not built yet (see DESIGN.md section 4 for the planned clause)"
